@@ -28,6 +28,12 @@ pub enum Flavour {
     Alloc,
     /// edits with frequent id/orbit/iterator cross-checks (C03)
     Queries,
+    /// one polygon face (plus neighbours) and triangulation kernels (C13)
+    Triangulate,
+    /// embedded maps and vertex insertions on edges (C14)
+    Insert,
+    /// triangle meshes and swap / cut / collapse histories (C15)
+    Remesh,
 }
 
 #[derive(Clone, Debug, Serialize, Deserialize)]
@@ -42,6 +48,7 @@ fn checks_for(prop: &str) -> Checks {
         "C03" => Checks { ids_orbits: true, ..Default::default() },
         "C04" | "C05" => Checks { sew_effect: true, ..Default::default() },
         "C18" => Checks { alloc: true, ..Default::default() },
+        "C13" | "C14" | "C15" => Checks { kernels: true, ..Default::default() },
         _ => Checks::default(),
     }
 }
@@ -62,6 +69,9 @@ fn single(op: Op, rng: &mut Rng) -> Tx {
 pub fn gen_step(rng: &mut Rng, i: usize, s: &State, flavour: Flavour, max_steps: usize, uniq: &mut u64) -> Option<Step> {
     if i >= max_steps {
         return None;
+    }
+    if matches!(flavour, Flavour::Triangulate | Flavour::Insert | Flavour::Remesh) {
+        return gen_kernel_step(rng, s, flavour);
     }
     let g = OpGen::new(rng, s, 3);
     let p_x = match flavour {
@@ -93,6 +103,7 @@ pub fn gen_step(rng: &mut Rng, i: usize, s: &State, flavour: Flavour, max_steps:
         Flavour::Sews => 0.75,
         Flavour::Alloc => 0.5,
         Flavour::Queries => 0.8,
+        _ => 0.5,
     };
     let op = if rng.chance(p_topo) {
         let mut op = g.topo(rng);
@@ -124,7 +135,107 @@ pub fn gen_step(rng: &mut Rng, i: usize, s: &State, flavour: Flavour, max_steps:
     Some(Step::Tx(tx))
 }
 
+fn gen_kernel_step(rng: &mut Rng, s: &State, flavour: Flavour) -> Option<Step> {
+    let pool = free_pool(s);
+    let need = match flavour {
+        Flavour::Remesh => 6,
+        Flavour::Insert => 6,
+        _ => 0,
+    };
+    if pool.len() < need && need > 0 {
+        return Some(if rng.chance(0.5) || s.unused.iter().all(|u| !u) { Step::AddFreeDarts(6 + rng.below(4) as u32) } else { Step::InsertFreeDart });
+    }
+    let which = match flavour {
+        Flavour::Remesh => [0, 0, 1, 1, 2, 3, 3][rng.below(7)],
+        Flavour::Insert => [4, 5, 5][rng.below(3)],
+        _ => 6 + rng.below(4),
+    };
+    let op = if flavour == Flavour::Triangulate {
+        // target the polygon faces (4+ sides) first
+        let pf = s.partition(2);
+        let mut polys: Vec<u32> = (1..s.n() as u32).filter(|&d| !s.unused[d as usize] && !s.is_free(d) && pf[d as usize] == d && s.face_walk(d, true).fwd.len() >= 4).collect();
+        if polys.is_empty() || rng.chance(0.05) {
+            kernel_op(rng, s, Some(which))?
+        } else {
+            rng.shuffle(&mut polys);
+            let f = polys[0];
+            let n = s.face_walk(f, true).fwd.len();
+            let mut sp = pool.clone();
+            rng.shuffle(&mut sp);
+            let k = if rng.chance(0.93) { 2 * (n - 3) } else { 2 * (n - 3) + 1 };
+            let nd: Vec<u32> = sp.into_iter().take(k).collect();
+            let area = {
+                let pv = s.partition(0);
+                let pts: Vec<crate::mesh::P> = s.face_walk(f, true).fwd.iter().filter_map(|&d| s.vtx[pv[d as usize] as usize].map(|v| (v[0], v[1]))).collect();
+                crate::mesh::signed_area(&pts)
+            };
+            match which {
+                6 => Op::Fan { f, nd },
+                7 => Op::FanConvex { f, nd },
+                _ => {
+                    // mostly the announced orientation
+                    let ccw = (area > 0.0) == rng.chance(0.9);
+                    if ccw { Op::EarclipCcw { f, nd } } else { Op::EarclipCw { f, nd } }
+                }
+            }
+        }
+    } else {
+        kernel_op(rng, s, Some(which))?
+    };
+    let runner = if rng.chance(0.7) { Runner::WithErr } else { Runner::ControlAbortAfter(1) };
+    let mut tx = Tx { runner, ops: vec![op], f1: vec![], f2: vec![], f1_attempt: 0 };
+    if rng.chance(0.2) {
+        tx.f2 = vec![0];
+    }
+    Some(Step::Tx(tx))
+}
+
 pub fn gen_init(rng: &mut Rng, dim: u8, flavour: Flavour, tier: Tier) -> State {
+    match flavour {
+        Flavour::Remesh => {
+            let kinds = if rng.chance(0.5) { 0 } else { (1 << K_VA) | (1 << K_EA) | (1 << K_FA) };
+            let max_n = if tier == Tier::Thorough { 4 } else { 3 };
+            let mut s = kernel_state(rng, kinds, true, max_n);
+            if rng.chance(0.8) {
+                let pv = s.partition(0);
+                for d in 1..s.n() {
+                    if s.vtx[d].is_none() && !s.is_free(d as u32) && pv[d] == d as u32 {
+                        s.vtx[d] = Some(crate::state::b3([d as f64 * 0.37 + 11.0, 7.0 - d as f64 * 0.11, 0.0]));
+                    }
+                }
+            }
+            return s;
+        }
+        Flavour::Insert => {
+            let kinds = 0;
+            return if rng.chance(0.5) {
+                let tri = rng.chance(0.5);
+                kernel_state(rng, kinds, tri, 2)
+            } else {
+                let n = 3 + rng.below(14);
+                let mut s = random_state_2d(rng, n, kinds);
+                let pv = s.partition(0);
+                for d in 1..s.n() as u32 {
+                    if !s.unused[d as usize] && pv[d as usize] == d && s.vtx[d as usize].is_none() && rng.chance(0.9) {
+                        s.vtx[d as usize] = Some(rand_point(rng, 2));
+                    }
+                }
+                let extra = 4 + rng.below(6);
+                s.grow(extra);
+                s
+            };
+        }
+        Flavour::Triangulate => {
+            let n = 4 + rng.below(9);
+            let kind = rng.below(3);
+            let cw = rng.chance(0.4);
+            let mesh = polygon_mesh(rng, n, kind, cw);
+            let extra = 2 * (n - 3) + rng.below(3);
+            let (s, _) = state_from_mesh(&mesh, 0, extra);
+            return s;
+        }
+        _ => {}
+    }
     if dim == 3 {
         return gen3::gen_init_3d(rng, flavour, tier);
     }
@@ -229,6 +340,13 @@ fn run_one(cfg: &Cfg, tier: Tier, i: u64, seed: u64, c: &mut Counters) -> Vec<Vi
             c.add("probe_slot_reuse", p.alloc_reuse);
             c.add("probe_alloc_append", p.alloc_append);
             c.add("attr_callbacks", p.callbacks);
+            c.add("kernel_premise_failed", p.k_premise_failed);
+            c.add("kernel_success_checked", p.k_checked_success);
+            c.add("kernel_refusal_checked", p.k_checked_refusal);
+            c.add("kernel_must_succeed_cases", p.k_must_succeed);
+            for (k, v) in &p.k_ok {
+                c.add(&format!("kernel_ok_{k}"), *v);
+            }
             for h in &p.states {
                 c.seen("states", *h);
             }
@@ -306,6 +424,12 @@ fn cfg_for(prop: &str) -> Cfg {
             rule: "one evaluation = one seeded history alternating allocation/removal/reuse with edits and data writes; distinct_nontrivial = distinct full map states reached" },
         "C03" => Cfg { known: Default::default(), prop: "C03", dim: 2, flavour: Flavour::Queries, quick_runs: 20_000, thorough_runs: 2_000_000, max_steps: 25,
             rule: "one evaluation = one seeded history whose reached states are cross-checked (every dart, every policy) against the definition-level model; distinct_nontrivial = distinct full map states reached" },
+        "C13" => Cfg { known: Default::default(), prop: "C13", dim: 2, flavour: Flavour::Triangulate, quick_runs: 40_000, thorough_runs: 4_000_000, max_steps: 2,
+            rule: "one evaluation = one seeded run of a triangulation kernel (fan, fan-convex, ear clipping in both orientations; right and wrong spare-dart counts; forced re-execution) on a generated simple polygon with 4-12 sides (strictly convex, star-shaped with reflex vertices, random radial; both orientations; isolated or with neighbour triangles glued on a random subset of sides), judged by the statement-level triangulation oracle; distinct_nontrivial = distinct full map states reached" },
+        "C14" => Cfg { known: Default::default(), prop: "C14", dim: 2, flavour: Flavour::Insert, quick_runs: 40_000, thorough_runs: 4_000_000, max_steps: 6,
+            rule: "one evaluation = one seeded history of vertex insertions (single and k = 1..3, valid and invalid spare darts, counts and positions; forced re-execution) on embedded well-formed 2-maps incl. dangling darts, 1-free/0-free ends, boundary and interior edges, judged by the exact subdivision oracle (all other darts incl. dart 0 bit identical); distinct_nontrivial = distinct full map states reached" },
+        "C15" => Cfg { known: Default::default(), prop: "C15", dim: 2, flavour: Flavour::Remesh, quick_runs: 30_000, thorough_runs: 3_000_000, max_steps: 12,
+            rule: "one evaluation = one seeded history of swap / cut / collapse calls on a perturbed split grid (with and without anchors), each successful call compared with the geometric reference model (expected set of oriented coordinate triangles, adjacency = geometric adjacency, counts, area, flags, anchors); distinct_nontrivial = distinct full map states reached" },
         "C02" => Cfg { known: Default::default(), prop: "C02", dim: 3, flavour: Flavour::Edits, quick_runs: 25_000, thorough_runs: 2_500_000, max_steps: 30,
             rule: "one evaluation = one seeded single-client history of up to 30 public editing calls (allocation, removal, link/unlink/sew/unsew in dimensions 1-3, both forms, with F1/F2 faults) on a generated polyhedral 3-map (tetrahedra, pyramids, prisms, hexahedra; some faces unglued or opened); well-formedness incl. the mirror condition evaluated on a full snapshot after every call, and every successful 3-link/3-sew compared with the model's mirrorability judgement; distinct_nontrivial = distinct full map states reached" },
         "C05" => Cfg { known: Default::default(), prop: "C05", dim: 3, flavour: Flavour::Sews, quick_runs: 25_000, thorough_runs: 2_500_000, max_steps: 25,
